@@ -847,6 +847,15 @@ def rule_preproc(ctx):
         yield ob("C03.PREPROC", em.func, "melody.evaluate:%s:inputs" % callee, not probs, "; ".join(probs) if probs else "arguments are the matching components of to_cent_voicing's result", node=c.node)
 
 
+def rule_preproc_chord(ctx):
+    """chord.evaluate's documented pre-processing (shared with C12.PIPELINE)."""
+    from . import c12
+
+    for o in c12.rule_pipeline(ctx):
+        o.rule = "C03.PREPROC"
+        yield o
+
+
 def _is_trim_of(a, side):
     if not (a.op == "call" and call_name(a) == "beat.trim_beats" and a.a[1]):
         return False
@@ -882,4 +891,5 @@ RULES = [
     ("C03.ROLEARGS", 280, rule_roleargs),
     ("C03.UNPACKORDER", 180, rule_unpackorder),
     ("C03.PREPROC", 26, rule_preproc),
+    ("C03.PREPROC", 20, rule_preproc_chord),
 ]
